@@ -553,7 +553,9 @@ class TransactionResult:
             return {k: tuple(v) if isinstance(v,list) else v for k,v in item.items()}
 
         def packed_list2tuple(item:dict):
-            return {k: list(map(tuple,v)) if k != 'rewards' and isinstance(v[0],list) else v for k,v in item.items()}
+            is_list = lambda c: isinstance(c,list)
+            to_tuple = lambda c: tuple(c) if isinstance(c,list) else c
+            return {k: list(map(to_tuple,v)) if k != 'rewards' and any(map(is_list,v)) else v for k,v in item.items()}
 
         if version == 3:
             raise CobaException("Deprecated transaction format. Please revert to an older version of Coba to read it.")
